@@ -1,5 +1,5 @@
 import BreezyVerif.Common
-import BreezyVerif.Model.C46
+import BreezyVerif.Model.C46World
 /-
 C46 driver.
 
@@ -13,7 +13,16 @@ C46 driver.
               flags = versioned ignored valid helper (T|F each)
      reply  = `<extras> <selected> <raised T|F> <surviving paths> <dirs ControlDir.open accepts>`
               (each a sorted list of paths joined by `;`, `-` = empty)
+  cleanw <fmt> <opts> <layout> <outside> <targets>
+     the same run on the file-system refinement (`Model/C46World.lean`: per-kind
+     primitives, path resolution through links, dry-run test inside delete_items)
+     outside = layout of the observed area outside the tree (same encoding)
+     targets = `<link path>><outside path>` joined by `;` (`-` = none): the links
+               to directories of the tree that point into the outside area
+     reply  = the five fields of `clean`, then `<surviving outside paths>` and three
+              characters: layout is wf / unvClosed / invShaped (T|F each)
   det <hex>      is_detritus of the latin-1 string → T|F
+  ctl <hex>      controldir.is_control_filename of the latin-1 name (no `/`) → T|F
 -/
 namespace BreezyVerif.C46
 
@@ -65,7 +74,25 @@ def parseOpts (s : String) : Option (Opts × Filter) :=
 def parseFmt (s : String) : Option Fmt :=
   if s == "B" then some .bzr else if s == "G" then some .git else none
 
+def parseTargets (s : String) : Option (List (Path × Path)) :=
+  if s == "-" then some [] else
+  (s.splitOn ";").mapM fun e =>
+    match e.splitOn ">" with
+    | [a, b] => do
+      let a ← parsePath a
+      let b ← parsePath b
+      pure (a, b)
+    | _ => none
+
 def handle : List String → String
+  | ["cleanw", fmt, opts, layout, outside, targets] =>
+    match parseFmt fmt, parseOpts opts, parseLayout layout, parseLayout outside, parseTargets targets with
+    | some fmt, some (o, flt), some f, some out, some tg =>
+      let keep := keepOf flt f
+      let w : World := { tree := f, outside := out, targets := tg }
+      let r := cleanTreeW keep fmt o w
+      s!"{showPaths ((extras fmt f).map (·.path))} {showPaths ((selectedWith keep fmt o f).map (·.path))} {showBool r.2} {showPaths r.1.tree.paths} {showPaths (nestedRoots f)} {showPaths r.1.outside.paths} {showBool f.wf}{showBool f.unvClosed}{showBool (invShaped f)}"
+    | _, _, _, _, _ => "bad-op"
   | ["clean", fmt, opts, layout] =>
     match parseFmt fmt, parseOpts opts, parseLayout layout with
     | some fmt, some (o, flt), some f =>
@@ -76,6 +103,10 @@ def handle : List String → String
   | ["det", h] =>
     match fromHex h with
     | some b => showBool (isDetritus (String.ofList (b.map fun x => Char.ofNat x.toNat)))
+    | none => "bad-op"
+  | ["ctl", h] =>
+    match fromHex h with
+    | some b => showBool (isCtlName (String.ofList (b.map fun x => Char.ofNat x.toNat)))
     | none => "bad-op"
   | _ => "bad-op"
 
